@@ -525,7 +525,7 @@ func resetRemoveAnnounce(c *Ctx, rule string) {
 			},
 			Watch: func(ev *Ev) bool {
 				return isDelete(ev) || isClient(ev) || ev.Label == "call:(*cache.Target).resetTimestamp" || ev.Label == "call:(*metadata.Metadata).Clear" ||
-					ev.Label == "call:(*cache.Target).updateMeta" || ev.Label == "call:cache.deleteNoti" || ev.Label == "call:(*ctree.Tree).Children" || ev.Label == "call:ctree.DetachedLeaf"
+					ev.Label == "call:(*cache.Target).updateMeta" || ev.Label == "call:cache.deleteNoti" || ev.Label == "call:(*ctree.Tree).Children" || ev.Label == "call:ctree.DetachedLeaf" || ev.Label == "builtin:delete"
 			}}
 		e.Run(reset)
 		c.Paths += len(e.Paths)
@@ -544,7 +544,16 @@ func resetRemoveAnnounce(c *Ctx, rule string) {
 			ok := pre
 			detail := ""
 			rootDetail := ""
-			if isMeta {
+			// the metadata root taken out of the enumerated copy before the loop (delete(roots, metadata.Root)):
+			// the loop never meets it, the "root is the metadata root" replay is the other one
+			metaRemoved := p.Has(func(ev *Ev) bool {
+				if ev.Label != "builtin:delete" || len(ev.Args) < 2 {
+					return false
+				}
+				s, okc := constString(ev.Args[1].V)
+				return okc && s == metaRoot && isCallNamed(ev.Args[0].V, "(*ctree.Tree).Children")
+			})
+			if isMeta && !metaRemoved {
 				ok = ok && nDel == 0 && nCl == 0
 				detail = "metadata root is skipped"
 			} else {
